@@ -63,6 +63,11 @@ DIRECTED = {
         op(o="spawn", num=1), IDLE, op(o="lock"), op(o="spawn", num=1), op(o="spawn", num=2), op(o="unlock"),
         op(o="spawn", num=1), IDLE, op(o="get_ids", names=["start-group-1"]), op(o="hstart", kind="gac"), DRAIN,
         op(o="spawn", num=1), op(o="unlock"), op(o="spawn", num=1)),
+    # KF-K: a worker cancels its own group as its last action; the finished Task is marked cancelled by asyncio
+    "kf_k_cancel_in_last_step": S(
+        {"cls": "TaskPool", "size": 2, "reqs": [{"kind": "apply", "num": 2}]},
+        op(o="spawn", t=0), IDLE, {"c": "arm", "pt": "fin:0", "op": {"o": "cancel_group", "r": 0}},
+        op(o="release", id=0, out="ret"), IDLE, op(o="hstart", kind="gac"), DRAIN),
     # KF-B: pool_size getter / setter
     "kf_b_get": S(
         {"cls": "TaskPool", "size": 3, "reqs": [{"kind": "apply", "num": 2}]},
